@@ -533,6 +533,9 @@ class Facts:
         pat = re.compile(r'^\{"rec":"body","path":"((?:[^"\\]|\\.)*)"')
         ppat = re.compile(r'^\{"rec":"promoted","path":"((?:[^"\\]|\\.)*)"')
         self.promoted = {}
+        self.constbodies = {}     # path -> raw line: initialisers of aggregate-valued constants
+        self._constagg = {}
+        cpat = re.compile(r'^\{"rec":"constbody","path":"((?:[^"\\]|\\.)*)"')
         for stem in targets:
             fs = glob.glob(os.path.join(d, stem + "-*.jsonl"))
             if len(fs) != 1:
@@ -545,6 +548,10 @@ class Facts:
                     if line.startswith('{"rec":"promoted"'):
                         m = ppat.match(line)
                         self.promoted[json.loads('"' + m.group(1) + '"')] = line
+                        continue
+                    if line.startswith('{"rec":"constbody"'):
+                        m = cpat.match(line)
+                        self.constbodies[json.loads('"' + m.group(1) + '"')] = line
                         continue
                     if line.startswith('{"rec":"body"'):
                         m = pat.match(line)
@@ -581,12 +588,54 @@ class Facts:
         r = self.raw.get(path)
         if r is None:
             raise Broken("anchor function not found: " + path)
-        b = Body(json.loads(r[0]), r[1])
+        rec = json.loads(r[0])
+        if self.constbodies:
+            self._expand_const_aggregates(rec)
+        b = Body(rec, r[1])
         self._parsed[path] = b
         return b
 
     def paths(self):
         return self.raw.keys()
+
+    def const_aggregate(self, path):
+        """the aggregate rvalue an aggregate-valued constant is initialised with (`const ALL: Self = Self { a: true, .. }`),
+        when its initialiser is a single aggregate of literals; else None"""
+        if path in self._constagg:
+            return self._constagg[path]
+        out = None
+        line = self.constbodies.get(path)
+        if line is not None:
+            r = json.loads(line)
+            aggs = []
+            simple = True
+            for blk in r["blocks"]:
+                if blk.get("cl"):
+                    continue
+                for st in blk["s"]:
+                    if st.get("lhs") == 0 and st["rv"]["k"] == "agg" and all(op_place(o) is None for o in st["rv"]["ops"]):
+                        aggs.append(st["rv"])
+                    elif "lhs" in st:
+                        simple = False
+                if blk["t"]["k"] not in ("ret", "goto", "unreachable", "resume", "abort"):
+                    simple = False
+            if simple and len(aggs) == 1:
+                out = aggs[0]
+        self._constagg[path] = out
+        return out
+
+    def _expand_const_aggregates(self, rec):
+        """`x = CONST` with an aggregate-valued workspace constant becomes `x = Adt { literal fields }`: naming a value
+        must not change what a rule sees"""
+        for blk in rec["blocks"]:
+            for st in blk["s"]:
+                rv = st.get("rv")
+                if rv and rv["k"] == "use" and "constdef" in rv["a"]:
+                    agg = self.const_aggregate(rv["a"]["constdef"])
+                    if agg is not None:
+                        new = json.loads(json.dumps(agg))
+                        new["from_const"] = rv["a"]["constdef"]
+                        st["rv"] = new
 
     def promoted_value(self, body, idx):
         """value of promoted constant #idx of `body`: ('variant', adt, name) for a fieldless enum
